@@ -287,6 +287,8 @@ class Unit:
             return (t, ty)
         if want == f'option {ty}' or want == f'option ({ty})':
             return (f'(Some {t})', want)
+        if want == 'val' and ty == 'string':
+            return (f'(VStr {t})', 'val')
         if want == 'val' and ty == 'option val':
             return (f'(match {t} with Some v => v | None => VNone end)', 'val')
         raise Untranslatable(f'type {ty} where {want} expected')
@@ -356,7 +358,9 @@ class Unit:
     # ------------------------------------------------------------------ statements
     def block(self, stmts, s, env, cur, k, mode):
         """translate stmts then continuation k(s, env).  mode: ('eff',) or ('pure', rettype)."""
-        stmts = [st for st in stmts if not (is_doc(st) or is_logging(st) or isinstance(st, (ast.Assert, ast.Pass)))]
+        keep_asserts = self.spec.get('asserts') and mode[0] in ('eff', 'effv')
+        stmts = [st for st in stmts if not (is_doc(st) or is_logging(st) or isinstance(st, ast.Pass)
+                                            or (isinstance(st, ast.Assert) and not keep_asserts))]
         if not stmts:
             return k(s, env)
         st, rest = stmts[0], stmts[1:]
@@ -364,6 +368,12 @@ class Unit:
         def cont(s2, env2):
             return self.block(rest, s2, env2, cur, k, mode)
 
+        if isinstance(st, ast.Assert):
+            if st.msg is not None and not isinstance(st.msg, ast.Constant):
+                raise Untranslatable('assert message')
+            c = self.truth(st.test, env)
+            failed = m_wrap(mode, f'(raise_new "AssertionError" {coq_str(st.msg.value if st.msg else "")} {s})')
+            return f'(if {c} then {cont(s, env)} else {failed})'
         if isinstance(st, ast.Return):
             if mode[0] == 'pure':
                 if st.value is None:
@@ -447,13 +457,52 @@ class Unit:
         if isinstance(st, ast.While) and isinstance(st.test, ast.Constant) and st.test.value is True and not st.orelse:
             return self.while_true(st, rest, s, env, cur, k, mode)
         if isinstance(st, ast.Assign) and len(st.targets) == 1 and isinstance(st.targets[0], ast.Name) \
-                and mode[0] in ('eff', 'effv') and self.eff_value(st.value) is not None:
+                and mode[0] in ('eff', 'effv') and self.eff_term(st.value, env, s) is not None:
             x = st.targets[0].id
-            attr, fn, ty = self.eff_value(st.value)
-            a = self.expr(attr, env, 'val')[0] if attr is not None else ''
+            term, ty = self.eff_term(st.value, env, s)
             nx = self.new(x + '_')
             self.assign_log.append(x)
-            return f'({m_lift(mode)} ({fn} {s} {a}) {s} (fun {nx} => {cont(s, {**env, x: (nx, ty)})}))'
+            bound = self.coerce(nx, ty, self.spec.get('local_types', {}).get(x))
+            return f'({m_lift(mode)} {term} {s} (fun {nx} => {cont(s, {**env, x: bound})}))'
+        # x = factory(name)(kw=...): an object built by a registered factory (None = outside the model)
+        if isinstance(st, ast.Assign) and len(st.targets) == 1 and isinstance(st.targets[0], ast.Name) \
+                and isinstance(st.value, ast.Call) and isinstance(st.value.func, ast.Call) \
+                and ast.unparse(st.value.func.func) in self.spec.get('factories', {}) and mode[0] in ('eff', 'effv'):
+            prim, posty, kws, resty = self.spec['factories'][ast.unparse(st.value.func.func)]
+            inner = st.value.func
+            if len(inner.args) != len(posty) or inner.keywords or st.value.args \
+                    or [k.arg for k in st.value.keywords] != [k for k, _ in kws]:
+                raise Untranslatable('factory call shape')
+            args = [self.expr(a, env, ty)[0] for a, ty in zip(inner.args, posty)]
+            args += [self.expr(k.value, env, ty)[0] for k, (_, ty) in zip(st.value.keywords, kws)]
+            x = st.targets[0].id
+            nx = self.new(x + '_')
+            self.assign_log.append(x)
+            return (f'(match ({prim} {s} {" ".join(args)}) with Some {nx} => {cont(s, {**env, x: (nx, resty)})} '
+                    f'| None => {m_raise(mode, "OUnsup", s)} end)')
+        # x = poll.while_until_true(interval=I, max_attempts=M)(self.f)(context=context, step_method=cb, k=v...)
+        if isinstance(st, ast.Assign) and len(st.targets) == 1 and isinstance(st.targets[0], ast.Name) \
+                and isinstance(st.value, ast.Call) and isinstance(st.value.func, ast.Call) \
+                and isinstance(st.value.func.func, ast.Call) \
+                and ast.unparse(st.value.func.func.func) == 'poll.while_until_true' and 'polled' in self.spec \
+                and mode[0] == 'eff':
+            deco, target, final = st.value.func.func, st.value.func.args, st.value
+            prim, tname, extra = self.spec['polled']
+            if deco.args or [k.arg for k in deco.keywords] != ['interval', 'max_attempts'] \
+                    or len(target) != 1 or ast.unparse(target[0]) != tname or final.args:
+                raise Untranslatable('polled call shape')
+            kw = {k.arg: k.value for k in final.keywords}
+            if set(kw) != {'context', 'step_method'} | {k for k, _ in extra} or not self.is_context_arg(kw['context']) \
+                    or not (isinstance(kw['step_method'], ast.Name) and kw['step_method'].id == 'step_method'):
+                raise Untranslatable('polled call arguments')
+            iv = self.expr(deco.keywords[0].value, env, 'interval')[0]
+            mx = self.expr(deco.keywords[1].value, env, 'option Z')[0]
+            ex = [self.expr(kw[k], env, ty)[0] for k, ty in extra]
+            x = st.targets[0].id
+            nx, s2, o = self.new(x + '_'), self.new('s'), self.new('o')
+            self.assign_log.append(x)
+            return (f'(match ({prim} {iv} {mx} {" ".join(ex)} {s}) with | (IDone {nx}, {s2}) => '
+                    f'{cont(s2, {**env, x: (nx, "bool"), "__eff__": ("", "flag")})} | (IRaise {o}, {s2}) => ({o}, {s2}) end)')
         # context['k'] = v
         if isinstance(st, ast.Assign) and len(st.targets) == 1 and isinstance(st.targets[0], ast.Subscript) \
                 and isinstance(st.targets[0].value, ast.Name) and st.targets[0].value.id == 'context' \
@@ -497,10 +546,10 @@ class Unit:
             x = st.targets[0].id
             if x not in self.live:
                 return cont(s, env)      # only read by logging
-            t, ty = self.expr(st.value, env)
+            t, ty = self.expr(st.value, env, self.spec.get('local_types', {}).get(x))
             nx = self.new(x + '_')
             self.assign_log.append(x)
-            if ty == 'option Q' and mode[0] in ('eff', 'effv'):
+            if ty == 'option Q' and mode[0] in ('eff', 'effv') and x not in self.spec.get('local_types', {}):
                 return (f'(match {t} with Some {nx} => {cont(s, {**env, x: (nx, "Q")})} '
                         f'| None => {m_raise(mode, "OUnsup", s)} end)')
             return f'(let {nx} := {t} in {cont(s, {**env, x: (nx, ty)})})'
@@ -652,8 +701,9 @@ class Unit:
         if isinstance(e, ast.Call) and isinstance(e.func, ast.Attribute) and isinstance(e.func.value, ast.Name) \
                 and e.func.value.id == 'context' and e.func.attr == 'get_formatted_as_type' and len(e.args) == 1 \
                 and len(e.keywords) == 1 and e.keywords[0].arg == 'out_type' \
-                and isinstance(e.keywords[0].value, ast.Name) and e.keywords[0].value.id == 'bool':
-            return (e.args[0], 'as_bool', 'bool')
+                and isinstance(e.keywords[0].value, ast.Name) and e.keywords[0].value.id in ('bool', 'float', 'int'):
+            return (e.args[0],) + {'bool': ('as_bool', 'bool'), 'float': ('as_float', 'Q'),
+                                   'int': ('as_int', 'Z')}[e.keywords[0].value.id]
         if isinstance(e, ast.Call) and isinstance(e.func, ast.Name) and e.func.id in self.spec.get('eff_functions', {}) \
                 and len(e.args) == 1 and self.is_context_arg(e.args[0]) and not e.keywords:
             fn, ty = self.spec['eff_functions'][e.func.id]
@@ -662,6 +712,19 @@ class Unit:
                 and e.func.value.id == 'context' and e.func.attr == 'get_formatted_value' and len(e.args) == 1 \
                 and not e.keywords:
             return (e.args[0], 'fmt', 'val')
+        return None
+
+    def eff_term(self, e, env, s):
+        """-> (res-valued coq term, type) for a context read, or `<context read> if <test> else <pure>`"""
+        ev = self.eff_value(e)
+        if ev is not None:
+            attr, fn, ty = ev
+            a = self.expr(attr, env, 'val')[0] if attr is not None else ''
+            return (f'({fn} {s} {a})', ty)
+        if isinstance(e, ast.IfExp) and self.eff_value(e.body) is not None:
+            t, ty = self.eff_term(e.body, env, s)
+            other = self.expr(e.orelse, env, ty)[0]
+            return (f'(if {self.truth(e.test, env)} then {t} else Ok {other})', ty)
         return None
 
     @staticmethod
@@ -1095,6 +1158,7 @@ STEP_COUNTERS = {
               'foreach_items': ('(s_foreach sp)', 'option val'), 'for_counter': ('(live_for k)', 'val')},
     'always_truthy': ('wcfg', 'rcfg'),
     'same_object': 'prim_same_object',
+    'asserts': True,
     'fields': {('wcfg', 'while_counter'): ('(fun _ : wcfg => live_while k)', 'Z'),
                ('rcfg', 'retry_counter'): ('(fun _ : rcfg => live_retry k)', 'Z'),
                ('exn', 'original_config[0]'): ('exn_cfg_key', 'string'),
@@ -1104,7 +1168,33 @@ STEP_COUNTERS = {
                                            'params': [('call', 'exn')]}},
     'order': ['reset_context_counters'],
 }
-UNITS = [STEPSRUNNER, STEP, RETRY, WHILE, PIPELINE, PYPE, STEP_FOREACH, STEP_RUN, POLL, STEP_IN, STEP_COUNTERS]
+RETRY_LOOP = {
+    'file': 'pypyr/dsl.py', 'cls': 'RetryDecorator', 'section': 'GenRetryLoop',
+    'variables': [
+        ('rc', 'rcfg', 'self: the retry decorator as written in the pipeline'),
+        ('prim_get_backoff', 'st -> val -> val -> option Q -> val -> val -> option interval',
+         'backoff_cache.get_backoff(name)(sleep=, max_sleep=, jrc=, kwargs=): the back-off callable '
+         '(reads random.random(), held in the state); None = a construction outside the model'),
+        ('prim_poll_exec_iteration', 'interval -> option Z -> option Z -> st -> iter_result * st',
+         'poll.while_until_true(interval, max_attempts)(self.exec_iteration)(context, step_method, max)'),
+    ],
+    'attrs': {'sleep': ('(r_sleep rc)', 'val'), 'backoff': ('(r_backoff rc)', 'option val'),
+              'sleep_max': ('(r_sleepmax rc)', 'option val'), 'jrc': ('(r_jrc rc)', 'val'),
+              'backoff_args': ('(r_args rc)', 'option val'), 'max': ('(r_max rc)', 'option val')},
+    'config_exprs': True,
+    'asserts': True,
+    'fields_rw': ('retry_counter',),
+    'local_types': {'max_sleep': 'option Q', 'max': 'option Z'},
+    'factories': {'backoff_cache.get_backoff': ('prim_get_backoff', ['val'],
+                                                [('sleep', 'val'), ('max_sleep', 'option Q'), ('jrc', 'val'),
+                                                 ('kwargs', 'val')], 'interval')},
+    'polled': ('prim_poll_exec_iteration', 'self.exec_iteration', [('max', 'option Z')]),
+    'callbacks': {'step_method': ('prim_unused', [])},
+    'fields': {}, 'ctors': {}, 'obj_methods': {},
+    'methods': {'retry_loop': {'kind': 'eff', 'coq': 'gen_retry_loop', 'params': []}},
+    'order': ['retry_loop'],
+}
+UNITS = [STEPSRUNNER, STEP, RETRY, WHILE, PIPELINE, PYPE, STEP_FOREACH, STEP_RUN, POLL, STEP_IN, STEP_COUNTERS, RETRY_LOOP]
 
 
 def pure_call_hook(unit):
